@@ -1,6 +1,67 @@
+import Model.Ring
 import Driver.Util
 namespace Driver.C16
-/-- placeholder: replaced when the property's model is built -/
-def step (_ : Unit) (_ : List String) : Unit × String := ((), "unimplemented")
-def init : Unit := ()
+open Ring
+
+structure St where
+  r : Ring.Ring
+  objs : List RHost
+
+def init : St := ⟨Ring.empty, []⟩
+
+def nat (s : String) : Nat := s.toNat?.getD 0
+def natList (s : String) : List Nat := if s == "-" then [] else (s.splitOn ",").map nat
+def join (l : List String) : String := if l.isEmpty then "-" else ",".intercalate l
+
+def insertSorted {β : Type} (e : Nat × β) : List (Nat × β) → List (Nat × β)
+  | [] => [e]
+  | x :: r => if e.1 < x.1 then e :: x :: r else x :: insertSorted e r
+def sortKeys {β : Type} (l : List (Nat × β)) : List (Nat × β) := l.foldl (fun acc e => insertSorted e acc) []
+
+/-- canonical snapshot: by-id index sorted by id (`id:obj`), by-address index sorted by address (`addr:id`), ordered list of objects -/
+def snapshot (r : Ring.Ring) : String :=
+  "ids=" ++ join ((sortKeys r.byId).map (fun e => toString e.1 ++ ":" ++ toString e.2.obj)) ++
+  " ips=" ++ join ((sortKeys r.byIp).map (fun e => toString e.1 ++ ":" ++ toString e.2)) ++
+  " list=" ++ join (r.list.map (fun h => toString h.obj))
+
+def St.obj? (s : St) (o : Nat) : Option RHost := s.objs.find? (fun h => h.obj == o)
+def showOpt : Option RHost → String | some h => toString h.obj | none => "nil"
+
+/-- ops
+  reset
+  host <obj> <id> <addr> <caddr>       define a HostInfo object
+  addm <obj>                           addHostIfMissing → "<stored obj> <existed>" + snapshot   (crash on an invalid host)
+  addu <obj>                           addOrUpdate → "<stored obj>" + snapshot
+  rm <id>                              removeHost → "<found>" + snapshot
+  get <id> | byip <addr> | all         getHost / getHostByIP / allHosts
+  refresh <filtered objs|-> <objs|->   the diff loop of refreshRing on the reported objects → result + effects + snapshot -/
+def step (s : St) (ws : List String) : St × String :=
+  match ws with
+  | ["reset"] => (init, "ok")
+  | ["host", o, id, a, c] => ({ s with objs := ⟨nat o, nat id, nat a, nat c⟩ :: s.objs.filter (fun h => h.obj != nat o) }, "ok")
+  | ["addm", o] => match s.obj? (nat o) with
+    | none => (s, "bad-op")
+    | some h => if h.invalid then (s, "crash:invalid-host") else
+      let (r', e, ex) := s.r.addIfMissing h
+      ({ s with r := r' }, toString e.obj ++ " " ++ toString ex ++ " " ++ snapshot r')
+  | ["addu", o] => match s.obj? (nat o) with
+    | none => (s, "bad-op")
+    | some h => if h.invalid then (s, "crash:invalid-host") else
+      let (r', e) := s.r.addOrUpdate h
+      ({ s with r := r' }, toString e.obj ++ " " ++ snapshot r')
+  | ["rm", id] =>
+    let (r', ok) := s.r.remove (nat id)
+    ({ s with r := r' }, toString ok ++ " " ++ snapshot r')
+  | ["get", id] => (s, showOpt (s.r.getHost (nat id)))
+  | ["byip", a] => let (h, ok) := s.r.getHostByIP (nat a); (s, showOpt h ++ " " ++ toString ok)
+  | ["all"] => (s, join ((sortKeys (s.r.allHosts.map (fun h => (h.obj, ())))).map (fun e => toString e.1)))
+  | ["refresh", fl, rep] =>
+    let f := natList fl
+    let (r', res, eff) := s.r.refresh (fun h => f.contains h.obj) ((natList rep).filterMap s.obj?)
+    ({ s with r := r' }, (match res with | .ok => "ok" | .errCannotFind => "err:cannot-find-host" | .errAlreadyExists => "err:host-already-exists")
+      ++ " filled=" ++ join (eff.filled.map (fun h => toString h.obj))
+      ++ " removed=" ++ join ((sortKeys (eff.removed.map (fun h => (h.obj, ())))).map (fun e => toString e.1))
+      ++ " " ++ snapshot r')
+  | _ => (s, "bad-op")
+
 end Driver.C16
